@@ -59,3 +59,101 @@ func VerifSVGTruncated(n int) {
 	vOutputBool("err", err != nil)
 	vReach("end")
 }
+
+var verifSVGEntUnits = []string{"&#60;", "&#38;", "&lt;", "&amp;", "&gt;", "x", " ", "&quot;", "'", "&#x3C;"}
+
+// VerifSVGEntities (C05/C09): <svg><text a="U..">U..</text></svg> with the attribute value and the text each built from
+// up to n units (references to < and &, other references, text): the output is well-formed (a decoded < or & stays
+// escaped) and the character data / attribute value decode to the same text.
+func VerifSVGEntities(n int) {
+	var av, tx []byte
+	ka, kt := vChoice("ka", n+1), vChoice("kt", n+1)
+	for i := 0; i < ka; i++ {
+		u := verifSVGEntUnits[vChoice("a"+string(rune('0'+i)), len(verifSVGEntUnits))]
+		vAssume(u != " ") // white space in svg attribute values is collapsed and trimmed by design
+		av = append(av, u...)
+	}
+	for i := 0; i < kt; i++ {
+		tx = append(tx, verifSVGEntUnits[vChoice("t"+string(rune('0'+i)), len(verifSVGEntUnits))]...)
+	}
+	in := append(append(append(append([]byte("<svg><text a=\""), av...), "\">"...), tx...), "</text></svg>"...)
+	evIn, ok := rxRead(in)
+	vAssume(ok)
+	w := &vWriter{}
+	err := (&Minifier{}).Minify(minify.New(), w, &vReader{b: append([]byte(nil), in...)}, nil)
+	vReach("after-call")
+	vOutput("out", w.buf)
+	vAssert(err == nil, "accepted")
+	evOut, ok2 := rxRead(w.buf)
+	vAssert(ok2, "output is well-formed")
+	why := rxSame(evIn, evOut, false)
+	if why != "" {
+		vFail("infoset changed: " + why)
+	}
+	vReach("end")
+}
+
+var verifSVGColorNames = map[string]string{"black": "000000ff", "green": "008000ff", "navy": "000080ff", "maroon": "800000ff", "teal": "008080ff", "olive": "808000ff", "purple": "800080ff", "gray": "808080ff", "grey": "808080ff"}
+
+// rsColor expands #rgb / #rgba / #rrggbb / #rrggbbaa or one of the colour names that the digits used below can spell
+// to rrggbbaa.
+func rsColor(v []byte) (string, bool) {
+	if len(v) > 0 && v[0] == '#' {
+		h := v[1:]
+		for _, c := range h {
+			if !(c >= '0' && c <= '9' || c >= 'a' && c <= 'f' || c >= 'A' && c <= 'F') {
+				return "", false
+			}
+		}
+		low := func(c byte) byte {
+			if c >= 'A' && c <= 'F' {
+				return c + 32
+			}
+			return c
+		}
+		out := []byte{}
+		switch len(h) {
+		case 3, 4:
+			for _, c := range h {
+				out = append(out, low(c), low(c))
+			}
+		case 6, 8:
+			for _, c := range h {
+				out = append(out, low(c))
+			}
+		default:
+			return "", false
+		}
+		if len(out) == 6 {
+			out = append(out, 'f', 'f')
+		}
+		return string(out), true
+	}
+	s, ok := verifSVGColorNames[string(v)]
+	return s, ok
+}
+
+// VerifSVGColorAttr: <svg><rect ATTR="#HEX"/></svg> with HEX of 3, 4, 6 or 8 symbolic digits over { 0 8 A }: the
+// colour (including its alpha channel) is the same.
+func VerifSVGColorAttr(n int) {
+	nd := []int{3, 4, 6, 8}[vChoice("len", 4)]
+	h := vBytes("h", 8)[:nd]
+	for _, c := range h {
+		vAssume(vB2I(c == '0')+vB2I(c == '8')+vB2I(c == 'A') != 0)
+	}
+	attr := []string{"fill", "stop-color"}[vChoice("attr", 2)]
+	in := append(append([]byte("<svg><rect "+attr+"=\"#"), h...), "\"/></svg>"...)
+	want, ok := rsColor(append([]byte("#"), h...))
+	vAssume(ok)
+	w := &vWriter{}
+	err := (&Minifier{}).Minify(minify.New(), w, &vReader{b: in}, nil)
+	vReach("after-call")
+	vOutput("out", w.buf)
+	vAssert(err == nil, "accepted")
+	val, found := rsAttrValue(w.buf, attr)
+	vAssert(found, "attribute kept")
+	got, ok2 := rsColor(val)
+	vAssert(ok2, "value is a colour")
+	vAssert(got == want, "same colour and alpha")
+	vReach("end")
+}
